@@ -280,4 +280,123 @@ theorem loglik_list_hasDerivAt {K L : ℝ → Matrix (Fin n) (Fin n) ℝ} {K' : 
   filter_upwards [hchol] with t ht
   rw [loglik_ofFn, ht.1, logdet_cholesky _ ht.2.1 ht.2.2]
 
+/-! ### 7. polynomial mean: generalized least squares coefficients that depend on θ (envelope argument) -/
+
+section GLS
+variable {p : ℕ}
+
+/-- `β = (Pᵀ K⁻¹ P)⁻¹ Pᵀ K⁻¹ y` -/
+noncomputable def glsBeta (P : Matrix (Fin n) (Fin p) ℝ) (K : Matrix (Fin n) (Fin n) ℝ) (y : Fin n → ℝ) :
+    Fin p → ℝ :=
+  (Pᵀ * K⁻¹ * P)⁻¹ *ᵥ (Pᵀ *ᵥ (K⁻¹ *ᵥ y))
+
+/-- `y − Pβ` -/
+noncomputable def glsResidual (P : Matrix (Fin n) (Fin p) ℝ) (K : Matrix (Fin n) (Fin n) ℝ) (y : Fin n → ℝ) :
+    Fin n → ℝ :=
+  y - P *ᵥ glsBeta P K y
+
+/-- the normal equations: `Pᵀ K⁻¹ (y − Pβ) = 0` -/
+theorem gls_normal (P : Matrix (Fin n) (Fin p) ℝ) (K : Matrix (Fin n) (Fin n) ℝ) (y : Fin n → ℝ)
+    (hG : (Pᵀ * K⁻¹ * P).det ≠ 0) :
+    Pᵀ *ᵥ (K⁻¹ *ᵥ glsResidual P K y) = 0 := by
+  have hu : IsUnit (Pᵀ * K⁻¹ * P).det := isUnit_iff_ne_zero.mpr hG
+  have h1 : Pᵀ *ᵥ (K⁻¹ *ᵥ (P *ᵥ glsBeta P K y)) = Pᵀ *ᵥ (K⁻¹ *ᵥ y) := by
+    rw [glsBeta, Matrix.mulVec_mulVec, Matrix.mulVec_mulVec, Matrix.mulVec_mulVec,
+      Matrix.mul_nonsing_inv _ hu, Matrix.one_mulVec]
+  rw [glsResidual, Matrix.mulVec_sub, Matrix.mulVec_sub, h1, sub_self]
+
+/-- hence the term `2·a·(−P w)` that `include_nonzero_correction` adds to the gradient vanishes identically -/
+theorem gls_correction_zero (P : Matrix (Fin n) (Fin p) ℝ) (K : Matrix (Fin n) (Fin n) ℝ) (y : Fin n → ℝ)
+    (hG : (Pᵀ * K⁻¹ * P).det ≠ 0) (w : Fin p → ℝ) :
+    (K⁻¹ *ᵥ glsResidual P K y) ⬝ᵥ (P *ᵥ w) = 0 := by
+  rw [Matrix.dotProduct_mulVec, ← Matrix.mulVec_transpose, gls_normal P K y hG, zero_dotProduct]
+
+theorem const_mulVec_hasDerivAt {m k : ℕ} (P : Matrix (Fin m) (Fin k) ℝ) {v : ℝ → Fin k → ℝ} {v' : Fin k → ℝ}
+    {θ : ℝ} (hv : ∀ j, HasDerivAt (fun t => v t j) (v' j) θ) (i : Fin m) :
+    HasDerivAt (fun t => (P *ᵥ v t) i) ((P *ᵥ v') i) θ := by
+  simp only [Matrix.mulVec, dotProduct]
+  exact HasDerivAt.fun_sum fun j _ => (hv j).const_mul (P i j)
+
+theorem mulVec_hasDerivAt {m k : ℕ} {M : ℝ → Matrix (Fin m) (Fin k) ℝ} {M' : Matrix (Fin m) (Fin k) ℝ}
+    {v : ℝ → Fin k → ℝ} {v' : Fin k → ℝ} {θ : ℝ}
+    (hM : ∀ i j, HasDerivAt (fun t => M t i j) (M' i j) θ) (hv : ∀ j, HasDerivAt (fun t => v t j) (v' j) θ)
+    (i : Fin m) :
+    HasDerivAt (fun t => (M t *ᵥ v t) i) ((M' *ᵥ v θ + M θ *ᵥ v') i) θ := by
+  have : HasDerivAt (fun t => ∑ j, M t i j * v t j) (∑ j, (M' i j * v θ j + M θ i j * v' j)) θ :=
+    HasDerivAt.fun_sum fun j _ => (hM i j).mul (hv j)
+  refine this.congr_deriv ?_
+  simp only [Pi.add_apply, Matrix.mulVec, dotProduct, Finset.sum_add_distrib]
+
+theorem dotProduct_hasDerivAt {m : ℕ} {u v : ℝ → Fin m → ℝ} {u' v' : Fin m → ℝ} {θ : ℝ}
+    (hu : ∀ j, HasDerivAt (fun t => u t j) (u' j) θ) (hv : ∀ j, HasDerivAt (fun t => v t j) (v' j) θ) :
+    HasDerivAt (fun t => u t ⬝ᵥ v t) (u' ⬝ᵥ v θ + u θ ⬝ᵥ v') θ := by
+  have : HasDerivAt (fun t => ∑ j, u t j * v t j) (∑ j, (u' j * v θ j + u θ j * v' j)) θ :=
+    HasDerivAt.fun_sum fun j _ => (hu j).mul (hv j)
+  refine this.congr_deriv ?_
+  simp only [dotProduct, Finset.sum_add_distrib]
+
+theorem sandwich_apply (P : Matrix (Fin n) (Fin p) ℝ) (M : Matrix (Fin n) (Fin n) ℝ) (i j : Fin p) :
+    (Pᵀ * M * P) i j = (fun a => P a i) ⬝ᵥ (M *ᵥ fun b => P b j) := by
+  simp only [Matrix.mul_apply, Matrix.transpose_apply, dotProduct, Matrix.mulVec, Finset.sum_mul,
+    Finset.mul_sum, mul_assoc]
+  exact Finset.sum_comm
+
+/-- the GLS coefficients are differentiable in θ -/
+theorem glsBeta_differentiable {K : ℝ → Matrix (Fin n) (Fin n) ℝ} {K' : Matrix (Fin n) (Fin n) ℝ} {θ : ℝ}
+    (hK : ∀ i j, HasDerivAt (fun t => K t i j) (K' i j) θ) (hdet : (K θ).det ≠ 0)
+    (P : Matrix (Fin n) (Fin p) ℝ) (hG : (Pᵀ * (K θ)⁻¹ * P).det ≠ 0) (y : Fin n → ℝ) :
+    ∃ β' : Fin p → ℝ, ∀ j, HasDerivAt (fun t => glsBeta P (K t) y j) (β' j) θ := by
+  have hM := inv_hasDerivAt hK hdet
+  have hGd : ∀ i j, HasDerivAt (fun t => (Pᵀ * (K t)⁻¹ * P) i j)
+      ((Pᵀ * (-((K θ)⁻¹ * K' * (K θ)⁻¹)) * P) i j) θ := by
+    intro i j
+    simp only [sandwich_apply]
+    exact bilin_hasDerivAt hM _ _
+  obtain ⟨D, hD⟩ := inv_entry_differentiable hGd hG
+  have hw : ∀ j, HasDerivAt (fun t => (Pᵀ *ᵥ ((K t)⁻¹ *ᵥ y)) j)
+      ((Pᵀ *ᵥ ((-((K θ)⁻¹ * K' * (K θ)⁻¹)) *ᵥ y)) j) θ := by
+    refine const_mulVec_hasDerivAt Pᵀ fun i => ?_
+    have := mulVec_hasDerivAt hM (fun j => hasDerivAt_const θ (y j)) i
+    refine this.congr_deriv ?_
+    have h0 : (fun _ : Fin n => (0 : ℝ)) = 0 := rfl
+    rw [h0, Matrix.mulVec_zero, add_zero]
+  exact ⟨_, fun j => mulVec_hasDerivAt hD hw j⟩
+
+/-- **polynomial mean, every n** — with `β(t)` the GLS coefficients and `r(t) = y − Pβ(t)`,
+    `r(t)ᵀK(t)⁻¹r(t) + log det K(t)` has derivative `−aᵀ dK a + tr(K⁻¹ dK)`, `a = K⁻¹ r(θ)`:
+    the θ-dependence of β does not contribute (`Pᵀ a = 0`). -/
+theorem loglikGLS_hasDerivAt {K : ℝ → Matrix (Fin n) (Fin n) ℝ} {K' : Matrix (Fin n) (Fin n) ℝ} {θ : ℝ}
+    (hK : ∀ i j, HasDerivAt (fun t => K t i j) (K' i j) θ) (hpos : 0 < (K θ).det) (hsymm : (K θ).IsSymm)
+    (P : Matrix (Fin n) (Fin p) ℝ) (hG : (Pᵀ * (K θ)⁻¹ * P).det ≠ 0) (s : ℝ) (y : Fin n → ℝ) :
+    HasDerivAt
+      (fun t => -s * (glsResidual P (K t) y ⬝ᵥ ((K t)⁻¹ *ᵥ glsResidual P (K t) y) + Real.log (K t).det))
+      (-s * (-(((K θ)⁻¹ *ᵥ glsResidual P (K θ) y) ⬝ᵥ (K' *ᵥ ((K θ)⁻¹ *ᵥ glsResidual P (K θ) y)))
+        + Matrix.trace ((K θ)⁻¹ * K'))) θ := by
+  have hdet : (K θ).det ≠ 0 := hpos.ne'
+  have hM := inv_hasDerivAt hK hdet
+  obtain ⟨β', hβ⟩ := glsBeta_differentiable hK hdet P hG y
+  have hr : ∀ i, HasDerivAt (fun t => glsResidual P (K t) y i) ((-(P *ᵥ β')) i) θ := by
+    intro i
+    have := (const_mulVec_hasDerivAt P hβ i).const_sub (y i)
+    exact this
+  have hq := dotProduct_hasDerivAt hr (mulVec_hasDerivAt hM hr)
+  refine ((hq.add (logdet_hasDerivAt hK hpos)).const_mul (-s)).congr_deriv ?_
+  congr 2
+  set r := glsResidual P (K θ) y with hrdef
+  set A := (K θ)⁻¹ with hA
+  have hAs : Aᵀ = A := hsymm.inv.eq
+  have hn : (A *ᵥ r) ⬝ᵥ (P *ᵥ β') = 0 := gls_correction_zero P (K θ) y hG β'
+  have e1 : (-(P *ᵥ β')) ⬝ᵥ (A *ᵥ r) = 0 := by
+    rw [neg_dotProduct, dotProduct_comm, hn, neg_zero]
+  have e2 : r ⬝ᵥ (A *ᵥ (-(P *ᵥ β'))) = 0 := by
+    rw [Matrix.dotProduct_mulVec, ← Matrix.mulVec_transpose, hAs, dotProduct_neg, hn, neg_zero]
+  have e3 : r ⬝ᵥ ((-(A * K' * A)) *ᵥ r) = -((A *ᵥ r) ⬝ᵥ (K' *ᵥ (A *ᵥ r))) := by
+    have h : r ᵥ* A = A *ᵥ r := by rw [← Matrix.mulVec_transpose, hAs]
+    rw [Matrix.neg_mulVec, dotProduct_neg, Matrix.mul_assoc, ← Matrix.mulVec_mulVec, ← Matrix.mulVec_mulVec,
+      Matrix.dotProduct_mulVec, h]
+  rw [dotProduct_add, e1, e2, e3]
+  ring
+
+end GLS
+
 end C04
